@@ -7,6 +7,20 @@ NOTES = ("exit 0 = every obligation generated from /repo's working tree discharg
          "timeout) - never an alarm. See DESIGN.md.")
 
 CHECKS = {
+    "C03": {
+        "text": "Proof, unbounded (Verus on the verbatim ServerEntityMap and its entry API): the two maps stay exact inverses of each other under every entry operation, under insert given its (weakest) precondition, and clear; "
+                "plus exactness of the range/count bookkeeping update messages are assembled from (ChangeRanges::add_component, Updates::add_despawn) and of UpdateMessageFlags::last (Kani, all 255 flag sets).",
+        "design_ref": "DESIGN.md §4 U8, U11, §5 C03",
+        "note": "Only the data-structure clause of the property ('a consistent two-way entity map') and message bookkeeping are decided. Not covered (most of the property): what the server puts into an update message and in which order (Updates::send, Bevy systems), how the client applies it, RemovalBuffer::update.",
+        "technique": "contract-based deductive verification: Verus requires/ensures (prophecy-based &mut entry views) on verbatim-extracted functions; Kani for the bit-level flag function",
+    },
+    "C10": {
+        "text": "Proof, unbounded (Verus, nonlinear arithmetic): can_pack against its tail-fit oracle, and three lemmas over the split condition extracted verbatim from Mutations::send "
+                "(no message exceeds the size when each group fits; one message when everything fits; a chunk is never separated from an empty message). The same can_pack contract is cross-checked by Kani on the real function.",
+        "design_ref": "DESIGN.md §4 U7, §5 C10",
+        "note": "Packing arithmetic only. Not covered: the loop in Mutations::send that applies the decision and assembles bytes (outside Verus' subset; Kani timeout), relationship-graph maintenance (petgraph), the client-side all-or-nothing effect.",
+        "technique": "contract-based deductive verification: Verus requires/ensures on verbatim can_pack and on the split condition extracted from the real send(); Kani contract harness for counterexamples",
+    },
     "C11": {
         "text": "Proof, unbounded (Verus on the verbatim ClientTicks / MutateIndex code): ack_mutate_message against the oracle `acked_tick` with a whole-view postcondition "
                 "(unknown index changes nothing; a known one is consumed once; each named entity's tick moves forward only and never past the message's tick; nothing else changes), "
@@ -26,10 +40,10 @@ CHECKS = {
     },
     "C06": {
         "text": "Proof (decoders only) on the real code and real dependencies: entity decoding is total over all byte strings; BufFlavor::pop makes progress on every non-empty buffer; "
-                "acknowledgement index decode/advance; trigger target-list decoding neither panics nor reserves more than the message length (complete for the length-prefix attack, bounded to 4-byte messages otherwise).",
+                "acknowledgement index decode/advance; trigger target-list decoding neither panics nor reserves more than the message length (complete for the length-prefix attack, bounded to 3-byte messages in the quick tier otherwise).",
         "design_ref": "DESIGN.md §4 U4, U9, U10, §5 C06",
         "note": "Decoders only. Not covered: the Bevy systems that call them (receive_acks' lookup of the sender's ClientTicks, ClientEvent::receive_typed, user event types' own Deserialize) and 'keeps serving every client afterwards'. "
-                "Bounded part (trigger_deserialize over all messages <= 4 bytes) is listed as bounded in the evidence and not counted as proved.",
+                "Bounded part (trigger_deserialize over all messages <= 3 bytes) is listed as bounded in the evidence and not counted as proved.",
         "technique": "contract-based deductive verification: Kani/CBMC contract harnesses on the real crate (complete where loop-free / fully unwound; one bounded stand-in, labelled)",
     },
     "C15": {
@@ -55,12 +69,10 @@ PLANNED = "planned (DESIGN.md §5) but its units are not built yet; not claimed 
 NOT_APPLICABLE = {
     "C01": "Eventual whole-history statement about two Bevy apps and a lossy network; the implementing functions are ECS systems (Query/World/Commands) outside any contract within reach of Verus or Kani. Function-level facts it rests on are decided under C08, C10, C11, C12, C15.",
     "C02": "Relates client component values to a recorded history of server states; mechanisms (apply_mutations skip rule, collect_changes merge, apply_replication order) are World-manipulating systems. set_last_tick's monotonicity is proved under C12 but its caller cannot be checked to establish the precondition.",
-    "C03": PLANNED,
     "C04": "Every mechanism is out of reach: system ordering (plugin wiring), receive_typed (unsafe PtrMut casts over generics), SerializedMessage::get_bytes (Kani out of memory, &mut sub-slice borrows for Verus) and ClientEventQueue (BTreeMap: Kani timeout; capturing closure for Verus).",
     "C05": "Recipient selection iterates a Bevy Query with closure filters; exactly-once is a property of Bevy's double-buffered Events<E> across frames; typed plumbing is unsafe pointer casts over generics.",
     "C07": "Holds by absence of components on the client entity and by query filters in send_replication/send_all; there is no function whose contract states it.",
     "C09": "Mechanisms are Bevy systems gated by run conditions and message purges using retain closures / generic Into (not extractable for Verus, Kani timeout). Reachable container resets are proved under C03/C12 but do not amount to the property.",
-    "C10": PLANNED,
     "C13": PLANNED,
     "C14": "Distinctness of hashes is not a theorem (FNV-1a collides); determinism rests on any::type_name (compiler intrinsic) and a derived Hash; the authorizing comparison is a Bevy observer.",
     "C16": "Mechanisms are collect_mappings (Query), Updates::send (out of reach) and apply_entity_mapping (World). The only reachable fact (ServerEntityMap::insert then server_entry is Occupied) is proved under C03.",
